@@ -286,6 +286,9 @@ def make_copy():
     d = tempfile.mkdtemp(prefix='xv_mut_')
     shutil.copytree(os.path.join(REPO, 'src'), os.path.join(d, 'src'),
                     ignore=shutil.ignore_patterns('__pycache__', '*.pyc', '*.egg-info'))
+    shutil.copytree(os.path.join(REPO, 'tests'), os.path.join(d, 'tests'),
+                    ignore=shutil.ignore_patterns('__pycache__', '*.pyc', 'pybind11_test'))
+    shutil.copy(os.path.join(REPO, 'pytest.ini'), os.path.join(d, 'pytest.ini'))
     return d
 
 
@@ -304,22 +307,16 @@ def apply(mid, root):
     subprocess.check_call(['/venv/bin/python', '-c', 'import ast,sys; ast.parse(open(sys.argv[1]).read())', path])
 
 
-def run_mutant(mid, tier='quick', props=None, verbose=True):
-    m = MUTANTS[mid]
-    props = props or m['props']
-    root = make_copy()
+def run_checks(root, props, tier='quick', label='', verbose=True, keep_out=None):
+    """run the checks `props` against the repository copy `root`; evidence and replays go to a scratch dir"""
     results = {}
-    saved = tempfile.mkdtemp(prefix='xv_ev_')
+    out = keep_out or tempfile.mkdtemp(prefix='xv_out_')
     try:
-        apply(mid, root)
         for prop in props:
             if not os.path.exists(os.path.join(VERIF, 'xv', 'props', prop.lower() + '.py')):
-                results[prop] = 'no-check'
+                results[prop] = ('no-check', '')
                 continue
-            ev = os.path.join(VERIF, 'evidence', prop + '.json')
-            if os.path.exists(ev):
-                shutil.copy(ev, os.path.join(saved, prop + '.json'))
-            env = dict(os.environ, XV_REPO=root)
+            env = dict(os.environ, XV_REPO=root, XV_OUT=out)
             p = subprocess.run([os.path.join(VERIF, 'check'), prop, '--tier', tier], env=env,
                                stdout=subprocess.PIPE, stderr=subprocess.STDOUT, text=True)
             first = ''
@@ -327,16 +324,30 @@ def run_mutant(mid, tier='quick', props=None, verbose=True):
                 if line.strip().startswith('mechanism='):
                     first = line.strip()[:200]
                     break
-            results[prop] = {0: 'MISSED', 1: 'caught', 2: 'inconclusive'}.get(p.returncode, 'exit%d' % p.returncode)
+            if not first:
+                for line in p.stdout.splitlines():
+                    if line.startswith('INCONCLUSIVE'):
+                        first = line[:200]
+            verdict = {0: 'MISSED', 1: 'caught', 2: 'inconclusive'}.get(p.returncode, 'exit%d' % p.returncode)
+            results[prop] = (verdict, first)
             if verbose:
-                print('%-4s %-4s %-12s %s' % (mid, prop, results[prop], first), flush=True)
-            if os.path.exists(os.path.join(saved, prop + '.json')):
-                shutil.copy(os.path.join(saved, prop + '.json'), ev)
+                print('%-6s %-4s %-12s %s' % (label, prop, verdict, first), flush=True)
+    finally:
+        if keep_out is None:
+            shutil.rmtree(out, ignore_errors=True)
+    return results
+
+
+def run_mutant(mid, tier='quick', props=None, verbose=True):
+    m = MUTANTS[mid]
+    props = props or m['props']
+    root = make_copy()
+    try:
+        apply(mid, root)
+        res = run_checks(root, props, tier, label=mid, verbose=verbose)
     finally:
         shutil.rmtree(root, ignore_errors=True)
-        shutil.rmtree(saved, ignore_errors=True)
-        shutil.rmtree(os.path.join(VERIF, 'replays'), ignore_errors=True)
-    return results
+    return {k: v[0] for k, v in res.items()}
 
 
 def main(argv):
